@@ -775,7 +775,8 @@ fn render_struct_line(
         },
         (Named(ident), Some(attr), Kind::FromOwned | Kind::FromRef, TypeHint::Tuple) => {
             let or = Named(format_ident!("f{}", f.idx));
-            let right_side = attr.get_stuff(&obj, get_field_path, ctx, || if ctx.impl_type.is_variant() { &or } else { &f.member });
+            let index = Unnamed(Index { index: f.idx as u32, span: Span::call_site() });
+            let right_side = attr.get_stuff(&obj, get_field_path, ctx, || if ctx.impl_type.is_variant() { &or } else { &index });
             quote!(#ident: #right_side,)
         },
         (Unnamed(index), Some(attr), Kind::OwnedInto | Kind::RefInto, TypeHint::Tuple | TypeHint::Unspecified) => {
